@@ -46,6 +46,11 @@ pub enum Exit {
 pub struct Lifetime {
     pub steps: Vec<Step>,
     pub exit: Exit,
+    /// before this lifetime the harness rewrites the body of synthetic target number `.0`
+    /// (JIT-style code changing at a reused address): "as before the injector existed" then
+    /// refers to the new content
+    #[serde(default)]
+    pub rewrite: Option<(u8, u16)>,
 }
 
 #[derive(Serialize, Deserialize, Clone, Debug, Hash, PartialEq, Eq)]
@@ -116,6 +121,10 @@ pub struct StepObs {
 
 #[derive(Serialize, Deserialize, Clone, Debug, Default)]
 pub struct LifeObs {
+    /// (target index, new pristine bytes, new original value) if a synthetic target was rewritten
+    /// before this lifetime
+    #[serde(default)]
+    pub rewritten: Option<(usize, Vec<u8>, u64)>,
     pub steps: Vec<StepObs>,
     pub exit: String,
     pub drop_panicked: Option<String>,
@@ -237,7 +246,8 @@ pub fn execute(c: &HistCase, opts: &Opts) -> HistObs {
         last_slot.push(off >= PAGE - 16);
     }
     let n = tg.len();
-    let pristine: Vec<Vec<u8>> = tg.iter().map(|t| crate::worker::pristine_of(t.addr).unwrap_or_else(|| crate::mem::read_direct(t.addr, 32))).collect();
+    let mut pristine: Vec<Vec<u8>> = tg.iter().map(|t| crate::worker::pristine_of(t.addr).unwrap_or_else(|| crate::mem::read_direct(t.addr, 32))).collect();
+    let n_real = tg.len() - c.synth.len();
     for (i, t) in tg.iter().enumerate() {
         o.targets.push(TargetObs { name: t.name.clone(), addr: t.addr as u64, orig: t.orig, class: format!("{:?}", t.class), synthetic: t.synthetic, pristine: pristine[i].clone(), last_slot: last_slot[i] });
     }
@@ -255,6 +265,27 @@ pub fn execute(c: &HistCase, opts: &Opts) -> HistObs {
             life_no += 1;
             o.total_lifetimes += 1;
             let mut lo = LifeObs::default();
+            if let Some((which, salt)) = life.rewrite {
+                if !c.synth.is_empty() {
+                    let si = which as usize % c.synth.len();
+                    let ti = n_real + si;
+                    // only plain `mov eax, id; ret` targets are rewritten (non-boolean, shape 0)
+                    if c.synth[si].shape % 5 == 0 && !c.synth[si].boolean {
+                        let addr = tg[ti].addr;
+                        let new_id = 0x7C00 + (salt as u32 % 0x300);
+                        unsafe {
+                            ip::sys_mprotect(addr & !0xFFF, 2 * PAGE, libc::PROT_READ | libc::PROT_WRITE);
+                            let mut code = [0xB8u8, 0, 0, 0, 0, 0xC3];
+                            code[1..5].copy_from_slice(&new_id.to_le_bytes());
+                            std::ptr::copy_nonoverlapping(code.as_ptr(), addr as *mut u8, 6);
+                            ip::sys_mprotect(addr & !0xFFF, 2 * PAGE, libc::PROT_READ | libc::PROT_EXEC);
+                        }
+                        pristine[ti] = crate::mem::read_direct(addr, 32);
+                        tg[ti].orig = new_id as u64;
+                        lo.rewritten = Some((ti, pristine[ti].clone(), new_id as u64));
+                    }
+                }
+            }
             ip::log_clear();
             let runs0 = targets::ORIG_RUNS.load(SeqCst);
             crate::worker::phase("new");
@@ -429,6 +460,10 @@ fn kind_strategy() -> impl Strategy<Value = Kind> {
 }
 
 pub fn strategy(max_lifetimes: usize, max_steps: usize, synth_bias_last_slot: bool) -> impl Strategy<Value = HistCase> {
+    strategy_rw(max_lifetimes, max_steps, synth_bias_last_slot, false)
+}
+
+pub fn strategy_rw(max_lifetimes: usize, max_steps: usize, synth_bias_last_slot: bool, rewrites: bool) -> impl Strategy<Value = HistCase> {
     let off = if synth_bias_last_slot {
         prop_oneof![2 => 0u16..0x1000, 3 => Just(0xFF0u16), 1 => Just(0u16)].boxed()
     } else {
@@ -442,7 +477,8 @@ pub fn strategy(max_lifetimes: usize, max_steps: usize, synth_bias_last_slot: bo
         3 => (0u8..12, kind_strategy(), 0u8..4).prop_map(|(t, kind, k)| Step::Install { t, kind, k }),
         2 => (0u8..12).prop_map(|t| Step::Call { t }),
     ];
-    let life = (prop::collection::vec(step, 0..=max_steps), prop_oneof![3 => Just(Exit::Normal), 1 => Just(Exit::Unwind)]).prop_map(|(steps, exit)| Lifetime { steps, exit });
+    let rw = if rewrites { prop::option::weighted(0.25, (any::<u8>(), any::<u16>())).boxed() } else { Just(None).boxed() };
+    let life = (prop::collection::vec(step, 0..=max_steps), prop_oneof![3 => Just(Exit::Normal), 1 => Just(Exit::Unwind)], rw).prop_map(|(steps, exit, rewrite)| Lifetime { steps, exit, rewrite });
     (synth, prop::collection::vec(life, 1..=max_lifetimes), any::<u8>()).prop_map(|(synth, lifetimes, focus)| {
         // concentrate the history on a few targets: indices are folded onto a window of 4
         let lifetimes = lifetimes
@@ -457,6 +493,7 @@ pub fn strategy(max_lifetimes: usize, max_steps: usize, synth_bias_last_slot: bo
                     })
                     .collect(),
                 exit: l.exit,
+                rewrite: l.rewrite,
             })
             .collect();
         HistCase { synth, lifetimes, repeat: 1 }
